@@ -635,14 +635,23 @@ func (sc *segmentController[T, O]) selectSegments(timeRange timestamp.TimeRange,
 				s.lastAccessed.Store(now)
 			} else {
 				// Stats peek: pin only if already open, never reopen.
+				pinned := false
 				for {
 					current := atomic.LoadInt32(&s.refCount)
 					if current <= 0 {
 						break
 					}
 					if atomic.CompareAndSwapInt32(&s.refCount, current, current+1) {
+						pinned = true
 						break
 					}
+				}
+				if !pinned {
+					// The caller DecRefs everything it gets. It holds no reference on this
+					// segment, so its DecRef must not release one that somebody else
+					// acquires in the meantime.
+					tt = append(tt, unpinnedSegment[T, O]{s})
+					continue
 				}
 			}
 			tt = append(tt, s)
@@ -650,6 +659,15 @@ func (sc *segmentController[T, O]) selectSegments(timeRange timestamp.TimeRange,
 	}
 	return tt, nil
 }
+
+// unpinnedSegment is a segment handed out by a reopenClosed=false select that did
+// not pin it (it was dormant or closed): its DecRef is a no-op.
+type unpinnedSegment[T TSTable, O any] struct {
+	*segment[T, O]
+}
+
+// DecRef does nothing: no reference was taken.
+func (unpinnedSegment[T, O]) DecRef() {}
 
 // peekSegments returns lightweight descriptors of the segments overlapping timeRange
 // WITHOUT opening (incRef-ing) any of them. It snapshots the matching segments' time
@@ -945,8 +963,10 @@ func (sc *segmentController[T, O]) load(ctx context.Context, start, end time.Tim
 }
 
 func (sc *segmentController[T, O]) remove(deadline time.Time) (hasSegment bool, err error) {
-	ss, _ := sc.segments(context.Background(), false)
-	for _, s := range ss {
+	// No reference is needed to flag a segment: delete() defers the removal to the
+	// last DecRef when somebody holds it. (Releasing a reference that was never
+	// taken would steal the one a concurrent query acquires in the meantime.)
+	for _, s := range sc.copySegments() {
 		if s.Before(deadline) {
 			hasSegment = true
 			id := s.id
@@ -956,7 +976,6 @@ func (sc *segmentController[T, O]) remove(deadline time.Time) (hasSegment bool, 
 			sc.Unlock()
 			sc.l.Info().Stringer("segment", s).Msg("removed a segment")
 		}
-		s.DecRef()
 	}
 	return hasSegment, err
 }
@@ -978,15 +997,13 @@ func (sc *segmentController[T, O]) getExpiredSegmentsTimeRange() *timestamp.Time
 		IncludeStart: true,
 		IncludeEnd:   false,
 	}
-	ss, _ := sc.segments(context.Background(), false)
-	for _, s := range ss {
+	for _, s := range sc.copySegments() {
 		if s.Before(deadline) {
 			if timeRange.Start.IsZero() {
 				timeRange.Start = s.Start
 			}
 			timeRange.End = s.End
 		}
-		s.DecRef()
 	}
 	return timeRange
 }
@@ -994,7 +1011,7 @@ func (sc *segmentController[T, O]) getExpiredSegmentsTimeRange() *timestamp.Time
 func (sc *segmentController[T, O]) deleteExpiredSegments(segmentSuffixes []string) int64 {
 	deadline := sc.clock.Now().Local().Add(-sc.opts.TTL.estimatedDuration())
 	var count int64
-	ss, _ := sc.segments(context.Background(), false)
+	ss := sc.copySegments()
 	sc.l.Info().Str("segment_suffixes", fmt.Sprintf("%s", segmentSuffixes)).
 		Str("ttl", fmt.Sprintf("%d(%s)", sc.opts.TTL.Num, sc.opts.TTL.Unit)).
 		Str("deadline", deadline.String()).
@@ -1022,7 +1039,6 @@ func (sc *segmentController[T, O]) deleteExpiredSegments(segmentSuffixes []strin
 				Str("segment_time_range", s.GetTimeRange().String()).
 				Msg("segment is not expired or not in the time range, skipping deletion")
 		}
-		s.DecRef()
 	}
 	return count
 }
